@@ -129,6 +129,29 @@ def wrap_vector(kind, values, index_plan="default", name=None):
     raise ValueError(kind)
 
 
+PY_CASTS = {"int": int, "float": float, "bool": bool}
+NP_DTYPES = ["uint8", "int8", "uint16", "int32", "float32"]
+LABEL_DTYPES = ["int", "int", "int", "float", "bool"] + NP_DTYPES
+
+
+def typed_vector(kind, values, index_plan="default", name=None, dtype="int"):
+    """wrap_vector with the element type chosen: 'int' / 'float' / 'bool' (Python values, natural dtype) or a numpy
+    dtype name (uint8, int8, uint16, int32, float32: arrays / Series / frames of that dtype, lists of numpy scalars).
+    Values must be representable in the dtype (0/1 labels always are)."""
+    if dtype in PY_CASTS:
+        return wrap_vector(kind, [PY_CASTS[dtype](v) for v in values], index_plan, name)
+    dt = np.dtype(dtype)
+    if kind == "list":
+        return [dt.type(v) for v in values]
+    obj = wrap_vector(kind, [float(v) if dt.kind == "f" else int(v) for v in values], index_plan, name)
+    if kind in ("ndarray_object", "series_object"):
+        return obj
+    out = obj.astype(dt)
+    if kind == "ndarray_readonly":
+        out.setflags(write=False)
+    return out
+
+
 vector_kind = st.sampled_from(VECTOR_KINDS)
 vector_kind_pandas_heavy = st.sampled_from(["series", "dataframe", "series", "list", "ndarray", "ndarray2d", "ndarray_readonly", "ndarray_strided"])
 index_plan = st.sampled_from(INDEX_PLANS)
